@@ -76,9 +76,9 @@ def fault_active(events, T, t0):
         if e['u'] == 1:
             tf, tc = e['timers'].get('tf', -1), e['timers'].get('tc', -1)
             acts = []
-            if t0 < tf < T:
+            if t0 <= tf < T:
                 acts.append((tf, 0, 1))
-            if t0 < tc < T:
+            if t0 <= tc < T:
                 acts.append((tc, 1, 0))
             # ANDES dispatches tf's callback before tc's at coincident times (declaration order)
             for _, _, val in sorted(acts):
